@@ -4,12 +4,14 @@ import (
 	"fmt"
 	"strings"
 
+	"github.com/vedadiyan/genql"
+
 	"verifharness/internal/fw"
 	"verifharness/internal/gen"
 	"verifharness/internal/val"
 )
 
-var c08Floor = []string{"depth.2", "depth.3", "inner.empty", "outer.empty", "mid.empty", "ragged", "where", "item.alias", "item.nonidempotent", "item.star", "item.async", "item.userfn", "mix", "mix.keep", "reexec.after-fault"}
+var c08Floor = []string{"depth.2", "depth.3", "inner.empty", "outer.empty", "mid.empty", "ragged", "where", "item.alias", "item.nonidempotent", "item.star", "item.async", "item.userfn", "mix", "mix.keep", "reexec.after-fault", "opt.vars", "opt.constants"}
 
 func init() {
 	fw.Register(&fw.Prop{
@@ -154,11 +156,38 @@ func c08Run(c *fw.Case) {
 			feats = append(feats, "item.async")
 		}
 	}
+	// per-query options reach every inner array: variables and constants
+	useVars := len(items) > 0 && items[0] != "*" && (force == "opt.vars" || c.Chance(0.2))
+	useConst := len(items) > 0 && items[0] != "*" && (force == "opt.constants" || c.Chance(0.15))
+	minV := gen.Pick(c.R, tmpl.Pools["n1"])
+	opts := func() []genql.QueryOption {
+		var out []genql.QueryOption
+		if useVars {
+			out = append(out, genql.WithVars(map[string]any{"min": minV, "tag": "tg"}))
+		}
+		if useConst {
+			out = append(out, genql.WithConstants(map[string]any{"c1": []any{1.0, "two"}, "c2": 5.0}))
+		}
+		return out
+	}
+	if useVars {
+		items = append(items, "GETVAR('tag') AS tg")
+		if where == "" {
+			where = " WHERE n1 >= GETVAR('min')"
+		} else {
+			where = " WHERE n1 >= GETVAR('min') AND (" + strings.TrimPrefix(where, " WHERE ") + ")"
+		}
+		feats = append(feats, "opt.vars", "where")
+	}
+	if useConst {
+		items = append(items, "CONSTANT('c1') AS ck", "(n1 + CONSTANT('c2')) AS cn")
+		feats = append(feats, "opt.constants")
+	}
 	sel := strings.Join(items, ", ")
 	sql := "SELECT " + sel + " FROM mm" + where
 	inner := "SELECT " + sel + " FROM t" + where
 	armFault(0, faultNone)
-	o := Run(val.CopyMap(doc), sql)
+	o := Run(val.CopyMap(doc), sql, opts()...)
 	waitBackground()
 	evals := 1
 	c.Sample(map[string]any{"sql": sql, "depth": depth, "outer_len": len(mm)})
@@ -175,7 +204,7 @@ func c08Run(c *fw.Case) {
 	var check func(src []any, got any, d int, path string) bool
 	check = func(src []any, got any, d int, path string) bool {
 		if d == 1 {
-			so := Run(map[string]any{"t": val.Copy(src)}, inner)
+			so := Run(map[string]any{"t": val.Copy(src)}, inner, opts()...)
 			evals++
 			if !so.OK() {
 				c.Discard("inner standalone failed")
@@ -237,7 +266,7 @@ func c08Run(c *fw.Case) {
 	// mix=> : concatenation of the inner results
 	if force == "mix" || c.Chance(0.5) {
 		msql := "SELECT " + sel + " FROM `mix=>mm`" + where
-		m := Run(val.CopyMap(doc), msql)
+		m := Run(val.CopyMap(doc), msql, opts()...)
 		evals++
 		feats = append(feats, "mix")
 		det2 := map[string]any{"sql": msql, "doc": doc, "observed": m.Describe(), "expected": val.Show(concat)}
@@ -255,11 +284,11 @@ func c08Run(c *fw.Case) {
 	// (only synchronous calls: a failing ASYNC call is outside what the given properties cover)
 	if containsStr(feats, "item.userfn") && !containsStr(feats, "item.async") && (force == "item.userfn" || force == "reexec.after-fault" || c.Chance(0.5)) {
 		armFault(0, faultNone)
-		if q, nerr := newSafe(val.CopyMap(doc), sql); q != nil && nerr.Err == nil {
+		if q, nerr := newSafe(val.CopyMap(doc), sql, opts()...); q != nil && nerr.Err == nil {
 			_ = execBuilt(q)
 			n := faultCount()
 			if n >= 1 {
-				q2, _ := newSafe(val.CopyMap(doc), sql)
+				q2, _ := newSafe(val.CopyMap(doc), sql, opts()...)
 				armFault(1+c.Intn(n), faultError)
 				failed := execBuilt(q2)
 				armFault(0, faultNone)
@@ -280,7 +309,7 @@ func c08Run(c *fw.Case) {
 	if force == "mix.keep" || c.Chance(0.25) {
 		K := c.Intn(len(mm) + 1)
 		ksql := fmt.Sprintf("SELECT %s FROM `mix=>mm[keep=>(0:%d)]`%s", sel, K, where)
-		k := Run(val.CopyMap(doc), ksql)
+		k := Run(val.CopyMap(doc), ksql, opts()...)
 		waitBackground()
 		evals++
 		feats = append(feats, "mix.keep")
